@@ -54,6 +54,15 @@ def sweep(ctx, rule, name, what, pred, fmt, site):
     ctx.check(not bad, rule, site, name, what, witness=w, line=getattr(site, "lineno", 0))
 
 
+def _parents_of(node, stop):
+    out = []
+    p = getattr(node, "_parent", None)
+    while p is not None and p is not stop:
+        out.append(p)
+        p = getattr(p, "_parent", None)
+    return out
+
+
 def r1(ctx):
     from .capacity import stale_copies
     stale_copies(ctx, "C05.R1")
@@ -105,10 +114,26 @@ def r1(ctx):
     ctx.check(fmt_size(cap.prefix_site.fmt) == fo, "C05.R1", bld, "calcsize(fragment prefix) == FRAGMENT_OVERHEAD", "the accounted prefix size is the real one",
               witness={"fmt": cap.prefix_site.fmt, "FRAGMENT_OVERHEAD": fo})
     # the packing loops scan the whole queue: the index advances on the non-admit path and the loop runs to len()
-    whiles = [n for n in walk_own(bpi.node) if isinstance(n, ast.While)]
-    ok = len(whiles) == 2 and all(norm(w.test).startswith("idx < len(") for w in whiles)
+    # each admit statement sits in a loop that visits every element: `while idx < len(queue)` whose non-admit paths advance idx,
+    # or a `for` over (a snapshot of) the queue; no break
+    loops = []
+    for g in cap.guards:
+        st = g["if"].body[0] if g["if"].body else None
+        lp = [p_ for p_ in _parents_of(st, bpi.node) if isinstance(p_, (ast.For, ast.While))] if st is not None else []
+        loops.append(lp[0] if lp else None)
+    ok = len(loops) == 2 and all(l is not None for l in loops)
+    for l in loops:
+        if l is None:
+            continue
+        if any(isinstance(x, ast.Break) for x in ast.walk(l)):
+            ok = False
+        if isinstance(l, ast.While):
+            ok = ok and norm(l.test).startswith("idx < len(")
+        else:
+            ok = ok and ("pending_retry_msg" in norm(l.iter) or "outgoing_messages" in norm(l.iter))
+    whiles = [l for l in loops if l is not None]
     ctx.check(ok, "C05.R1", bpi, "packing loops scan the whole queue", "first-fit: a message that does not fit is skipped, later ones are still tried",
-              witness=[norm(w.test) for w in whiles])
+              witness=[norm(w.test) if isinstance(w, ast.While) else norm(w.iter) for w in whiles])
 
 
 def r2(ctx):
